@@ -7,6 +7,7 @@
                                                                       are looked at after the whole stream)
    case (5 thrArg cipher keyseed pkt (ver ...))                       the same packet object encoded repeatedly
         observed ((enc) (dec) (zip) (unzip) ((ver wres rres) ...))
+   case (8 ver thrArg cipher keyseed pkt k) / (9 data k)              a writer that fails after k bytes
    case (6 ver thrArg workers iters seed)                             one codec instance, several goroutines
         observed (frames failures #first)
         observed ((enc) (dec) (zip) (unzip) (wres ...) (rres ...))
@@ -323,6 +324,70 @@ Definition check_reencode (thrArg cipher : Z) (pk : sx) (obs : list sx) : verdic
   | _ => VBad
   end.
 
+(* cases 8, 9: a writer that fails after k bytes *)
+Fixpoint is_prefix (a b : list bytes) : bool :=
+  match a, b with
+  | [], _ => true
+  | x :: a', y :: b' => bytes_eqb x y && is_prefix a' b'
+  | _, [] => false
+  end.
+
+Definition check_failing (ver thrArg cipher : Z) (pk : sx) (k : N) (obs : list sx) : verdict :=
+  match obs with
+  | [enc_t; zip_t; w1; SInt accepted; SInt wfailed; w2] =>
+      match sx_packet pk, sx_table enc_t, sx_table zip_t, sx_wobs w1, sx_wobs w2 with
+      | Some p, Some te, Some tz, Some o1, Some o2 =>
+          let enc := fun_of_table te in
+          let zip := fun_of_table tz in
+          let has_c := negb (Z.eqb cipher 0) in
+          let thr := if Z.eqb ver 1 then thr_v1 thrArg else thr_v2 thrArg in
+          let m := if Z.eqb ver 1 then write_v1 enc zip thr has_c p else write_v2 enc zip thr has_c p in
+          let m1 := to_writer k m in
+          let failed := Z.eqb wfailed 1 in
+          let corr :=
+            vall [ check_that (match w_ret m1 with
+                               | Some n => negb (wo_err o1) && Z.eqb (wo_ret o1) (Z.of_N n)
+                               | None => wo_err o1 && Z.eqb (wo_ret o1) 0 end) (VMismatch 1);
+                   check_that (bytes_list_eqb (w_writes m1) (wo_writes o1)) (VMismatch 2);
+                   check_that (header_eqb (w_pkt m1) (wo_pkt o1)) (VMismatch 3) ] in
+          let prop :=
+            vall [ check_that (negb (wo_panic o1)) (VPropFail 1);
+                   (* a failed Write must surface as an error; without one the call behaves as on a good writer *)
+                   check_that (if failed then wo_err o1
+                               else Bool.eqb (wo_err o1) (wo_err o2) && Z.eqb (wo_ret o1) (wo_ret o2)
+                                    && bytes_list_eqb (wo_writes o1) (wo_writes o2)) (VPropFail 11);
+                   (* no Write after the failing one, nothing but the frame's own bytes offered *)
+                   check_that (wo_err o2 || is_prefix (wo_writes o1) (wo_writes o2)) (VPropFail 11);
+                   check_that (Z.to_N accepted <=? k) (VPropFail 11) ] in
+          (* the later packet on a fresh writer *)
+          vall [ prop; corr; check_write enc zip ver thr has_c p o2 ]
+      | _, _, _, _, _ => VBad
+      end
+  | _ => VBad
+  end.
+
+Definition check_failing_len (data : sx) (k : N) (obs : list sx) : verdict :=
+  match obs with
+  | [SInt pn; SInt ret; SInt err; ws; SInt accepted; SInt wfailed] =>
+      match sx_data data, sx_bytes_list ws with
+      | Some d, Some w =>
+          let '(mret, mw) := write_len_data d in
+          let '(c, ok, _) := run_writer k mw in
+          let failed := Z.eqb wfailed 1 in
+          let werr := negb (Z.eqb err 0) in
+          vall [ check_that (Z.eqb pn 0) (VPropFail 1);
+                 check_that (negb failed || werr) (VPropFail 11);
+                 check_that (Z.to_N accepted <=? k) (VPropFail 11);
+                 check_that (match mret with
+                             | Some n => if ok then negb werr && Z.eqb ret (Z.of_N n) && bytes_list_eqb w mw
+                                         else werr && Z.eqb ret 0 && bytes_list_eqb w c
+                             | None => werr && Z.eqb ret 0 && bytes_list_eqb w []
+                             end) (VMismatch 8) ]
+      | _, _ => VBad
+      end
+  | _ => VBad
+  end.
+
 (* case 6: one codec instance used by several goroutines: no frame may fail to come back *)
 Definition check_stress (obs : list sx) : verdict :=
   match obs with
@@ -339,6 +404,9 @@ Definition check (c : sx) : verdict :=
       if Z.eqb ver 1 || Z.eqb ver 2 then check_stream ver thrArg cipher pkts chunks obs else VBad
   | SList [SList [SInt 5%Z; SInt thrArg; SInt cipher; SInt _; pk; SList _]; SList obs] =>
       check_reencode thrArg cipher pk obs
+  | SList [SList [SInt 8%Z; SInt ver; SInt thrArg; SInt cipher; SInt _; pk; SInt k]; SList obs] =>
+      if Z.eqb ver 1 || Z.eqb ver 2 then check_failing ver thrArg cipher pk (Z.to_N k) obs else VBad
+  | SList [SList [SInt 9%Z; data; SInt k]; SList obs] => check_failing_len data (Z.to_N k) obs
   | SList [SList [SInt 6%Z; SInt _; SInt _; SInt _; SInt _; SInt _]; SList obs] => check_stress obs
   | SList [SList [SInt 3%Z; data; chunks]; SList obs] => check_lendata data chunks obs
   | SList [SList [SInt 4%Z; SInt ver; SInt nref; SInt bodylen; SInt _; SInt thrArg; SInt _]; SList obs] =>
